@@ -10,8 +10,8 @@ PROPERTY = 'C06'
 FUNCTIONS = ['rdp.grdp', 'rdp._grdp', 'rdp.mp_grdp', 'rdp.min_point_rdp', 'rdp.rdp_fixed', 'rdp._rdp_fixed', 'rdp.order_*',
              'evaluation.compute_global_cost / compute_cost / compute_partial_cost with its segment cache (inline layer)']
 STUBS = STUB_DOC
-BOUNDS = dict(quick='L1: n <= 5, {smape, r2} x 2 distances x 3 orderings, symbolic threshold(s), min_points 0..n+1, threshold lists of length 2; '
-                    'L0: slices through 5 pool curves (one symbolic height, symbolic thresholds) with the real kernels and the real cache',
+BOUNDS = dict(quick='L1: n <= 5, {smape, r2} x 2 distances x 3 orderings, symbolic threshold(s), min_points 0..n+1, threshold lists of length 2 (n <= 4); '
+                    'L0: slices through 4 pool curves (one symbolic height, symbolic thresholds) with the real kernels and the real cache',
               thorough='L1: n <= 6, threshold lists of length <= 3; L0: 12 pool curves, all five metrics')
 ASSUMPTIONS = ['exact real arithmetic (T1)', 't > 0 (t <= 1 for R2)', 'L1: distance, ordering score and global cost are free reals keyed by segment / breakpoint set']
 CONFIG = dict(quick=dict(budget_s=170, case_wall_s=150, max_paths=30000), thorough=dict(budget_s=1750, case_wall_s=1600, max_paths=600000))
@@ -22,7 +22,7 @@ ORD = ['segment', 'triangle', 'area']
 def cases(tier, seed):
     q = tier == 'quick'
     out = []
-    pool = ([0, 2, 3] + TINY) if q else list(range(len(POOL)))
+    pool = ([0, 2] + TINY) if q else list(range(len(POOL)))
     for ci in pool:
         n = len(POOL[ci])
         pos_sets = [[i] for i in range(n)] if not q else [[n // 2]]
@@ -40,6 +40,8 @@ def cases(tier, seed):
                         continue
                     out.append(dict(layer='L1', no_validate=True, fn='grdp', n=n, distance=d, order=o, metric=m))
         for nt in ((2,) if q else (2, 3)):
+            if q and n > 4:
+                continue
             out.append(dict(layer='L1', no_validate=True, fn='min_point_rdp', n=n, nt=nt))
     return out
 
